@@ -21,9 +21,9 @@
 #define FX_HEAD  (FX_T0 + 86400ULL * 60 + 9)    /* calendar head */
 
 enum { FXE_CORRECT = 0, FXE_OTHER_ROOT, FXE_OTHER_INPUT, FXE_OTHER_AGGR_TIME, FXE_RIGHT_ALTERED, FXE_ERROR_STATUS, FXE_ERROR_PDU, FXE_BAD_MAC,
-       FXE_WRONG_ID, FXE_NO_REPLY, FXE_RIGHT_EXTRA, FXE_RIGHT_EXTRA_TOP, FXE_NBEH };
+       FXE_WRONG_ID, FXE_NO_REPLY, FXE_RIGHT_EXTRA, FXE_RIGHT_EXTRA_TOP, FXE_NO_AGGR_TIME_FIELD, FXE_NBEH };
 static const char *FXE_NAME[FXE_NBEH] = {"correct", "other-root", "other-input", "other-aggr-time", "right-altered", "error-status", "error-pdu", "bad-mac", "wrong-id", "no-reply",
-                                         "right-extra", "right-extra-top"};
+                                         "right-extra", "right-extra-top", "no-aggr-time-field"};
 
 typedef struct {
 	int ext_behaviour;
@@ -92,6 +92,7 @@ static void fx_handler(const unsigned char *req, size_t n, vbuf *resp, void *use
 			}
 			break;
 		}
+		case FXE_NO_AGGR_TIME_FIELD: cal.cal_has_aggr = 0; break;   /* the honest chain, but it does not say which aggregation time it is for (then: its publication time) */
 		case FXE_BAD_MAC: e.flags |= RP_F_BAD_MAC; break;
 		case FXE_WRONG_ID: id += 7; break;
 		default: break;
